@@ -453,6 +453,7 @@ def check_instance(c, inst, mo, tag="main"):
                             c.fail(w, case, {"member": m, "variable": v["name"], "component": cc, "time_index": i,
                                              "expected_physical": exp, "got_scaled": float(arr[ix]), "nominal": nomc,
                                              "bound_kinds": kinds.get(v["name"])})
+    c.count(None, n=2 * len(owner))  # lbx and ubx of every named entry compared with the oracle
     # initial derivatives
     sym_expected = []
     for m in range(E):
@@ -737,8 +738,8 @@ def run(c):
     # corpus first
     insts = [copy.deepcopy(x) for x in CORPUS]
     tags = ["corpus"] * len(insts)
-    n_main = c.n(110, 1300)
-    n_mal = c.n(25, 200)
+    n_main = c.n(300, 3000)
+    n_mal = c.n(60, 400)
     for _ in range(n_main):
         insts.append(gen_instance(rng, big=c.big))
         tags.append("main")
@@ -757,8 +758,8 @@ def run(c):
                 c.hit("bound/" + kk)
         for hk in inst.get("_hist_kinds", {}).values():
             c.hit("hist/" + hk)
-    stream_interp(c, c.n(300, 4000))
-    stream_solve(c, c.n(6, 40))
+    stream_interp(c, c.n(600, 8000))
+    stream_solve(c, c.n(10, 60))
     c.notes.append("random streams are samples; the unbounded claim is carried by the theorems; the oracle "
                    "re-states the property on the real lbx/ubx of every generated instance")
 
